@@ -403,6 +403,23 @@ def check_spans(case) -> Outcome:
         if t.kind.value in ("name", "value") and raw[:1] not in "`{" and "".join(raw.split()) != "".join(t.token.split()):
             out.fail("parser-span-text", f"{s!r}: token {t.token!r} span {(a, b)} text {raw!r}")
             break
+    # ... and through the parser that adds the implicit intercept (it splits operator runs such as '~ -' to do so):
+    # whatever span a piece of a split run records still covers that piece's own characters
+    try:
+        itoks = list(DefaultFormulaParser(include_intercept=True).get_tokens(s))
+    except (FormulaParsingError, SyntaxError):
+        itoks = []
+    for t in itoks:
+        if t.source is None or t.source_start is None or t.source_end is None or t.source != s:
+            continue
+        raw = s[t.source_start : t.source_end + 1]
+        tok_, raw_ = "".join(t.token.split()), "".join(raw.split())
+        # (a piece of a split run may keep the span of the whole run, and an operator the parser merged with one of its
+        # own has characters that are not in the source at all - but a span never covers only blanks, or only
+        # characters the token does not have)
+        if t.kind.value == "operator" and raw[:1] != "%" and not (set(tok_) & set(raw_)):
+            out.fail("parser-span-text", f"{s!r} (implicit intercept): operator {t.token!r} span {(t.source_start, t.source_end)} covers {raw!r}", split=True)
+            break
     return out
 
 
